@@ -42,14 +42,31 @@ def prepare_copy(repo, contracts, work):
 
 
 def parse_log(log, names):
-    """Split the cargo-kani log per harness."""
+    """Split the cargo-kani log per harness (plain format, or the `Thread N:` format produced with -j)."""
     res = {}
-    # sections start with "Checking harness <path>..."
-    parts = re.split(r'^Checking harness (\S+?)\.\.\.\s*$', log, flags=re.M)
-    # parts: [pre, name1, body1, name2, body2, ...]
-    for i in range(1, len(parts), 2):
-        full = parts[i]
-        body = parts[i + 1]
+    bodies = {}      # full harness name -> text
+    thread_h = {}
+    cur = None
+    for ln in log.split('\n'):
+        m = re.match(r'^(?:Thread (\d+): )?Checking harness (\S+?)\.\.\.\s*$', ln)
+        if m:
+            cur = m.group(2)
+            bodies.setdefault(cur, '')
+            if m.group(1) is not None:
+                thread_h[m.group(1)] = cur
+            continue
+        m = re.match(r'^Thread (\d+): ?(.*)$', ln)
+        if m:
+            cur = thread_h.get(m.group(1))
+            if cur is not None:
+                bodies[cur] += m.group(2) + '\n'
+            continue
+        if ln.startswith('Manual Harness Summary') or ln.startswith('Complete - '):
+            cur = None
+            continue
+        if cur is not None:
+            bodies[cur] += ln + '\n'
+    for full, body in bodies.items():
         short = full.split('::')[-1]
         d = dict(full=full, status='undecided', reason='no verdict', checks=0, failed_checks=[], covers=None,
                  solver_s=None, concrete=None, log_tail=body[-1500:])
@@ -108,8 +125,8 @@ def run_harnesses(repo, contracts, work, harnesses, tier):
             return out
         names = [h['harness'] for h in harnesses]
         timeout = max(h.get('timeout', 600) for h in harnesses) * (1 if tier == 'quick' else 3)
-        cmd = ['cargo', 'kani', '-Z', 'stubbing', '-Z', 'function-contracts', '-Z', 'concrete-playback',
-               '--concrete-playback=print', '-j', str(min(8, max(1, len(names)))), '--output-format', 'terse']
+        base = ['cargo', 'kani', '-Z', 'stubbing', '-Z', 'function-contracts', '--output-format', 'terse']
+        cmd = base + ['-j', str(min(8, max(1, len(names))))]
         for n in names:
             cmd += ['--harness', n]
         out['cmd'] = 'CARGO_NET_OFFLINE=true ' + ' '.join(cmd) + '   (in a scratch copy of /repo with contracts/kani/*.rs appended)'
@@ -118,17 +135,30 @@ def run_harnesses(repo, contracts, work, harnesses, tier):
         try:
             with open(logp, 'w') as lf:
                 p = subprocess.run(cmd, cwd=dst, env=env, stdout=lf, stderr=subprocess.STDOUT, timeout=timeout + 600)
-            rc = p.returncode
         except subprocess.TimeoutExpired:
             subprocess.run(['pkill', 'cbmc'])
             out['status'], out['reason'] = 'undecided', f'cargo kani exceeded {timeout + 600}s'
             return out
         log = open(logp, errors='replace').read()
-        if 'error: could not compile' in log or re.search(r'^error(\[E\d+\])?:', log, flags=re.M) and 'Checking harness' not in log:
+        if 'error: could not compile' in log or (re.search(r'^error(\[E\d+\])?:', log, flags=re.M) and 'Checking harness' not in log):
             m = re.search(r'^error.*$', log, flags=re.M)
             out['status'], out['reason'] = 'undecided', 'build failed: ' + (m.group(0)[:300] if m else log[-300:])
             return out
         hres = parse_log(log, names)
+        # counterexamples: re-run each failed harness alone with concrete playback (incompatible with -j)
+        for n, h in hres.items():
+            if h['status'] != 'failed':
+                continue
+            cmd2 = base + ['-Z', 'concrete-playback', '--concrete-playback=print', '--harness', n]
+            lp2 = os.path.join(work, f'kani-{n}.log')
+            try:
+                with open(lp2, 'w') as lf:
+                    subprocess.run(cmd2, cwd=dst, env=env, stdout=lf, stderr=subprocess.STDOUT, timeout=timeout + 300)
+                h2 = parse_log(open(lp2, errors='replace').read(), [n]).get(n)
+                if h2 and h2.get('concrete'):
+                    h['concrete'] = h2['concrete']
+            except subprocess.TimeoutExpired:
+                subprocess.run(['pkill', 'cbmc'])
         out['harnesses'] = hres
         stubs = sorted(set(re.findall(r'-\s*Stub: (\S+)', log)))
         m = re.search(r'Complete - (\d+) successfully verified harnesses, (\d+) failures, (\d+) total', log)
